@@ -381,6 +381,10 @@ def fam_S(ty, thorough):
                 else:
                     body = pre + [st, ls[0]]
                 out.append(skeleton(ty, "S", pro, mk(body), [tag] + feat + ["nested"]))
+            if any(f.endswith("-inner") for f in feat):
+                # break / continue of the OUTER loop placed after the inner loop (the jump must go to the outer loop's blocks)
+                out.append(skeleton(ty, "S", pro, mk(pre + [st, ("if", lc[0], [("break",)], []), ls[0]]), [tag] + feat + ["nested", "outer-break-after-inner"]))
+                out.append(skeleton(ty, "S", pro, mk(pre + [st, ("if", lc[0], [("continue",)], []), ls[0]]), [tag] + feat + ["nested", "outer-continue-after-inner"]))
 
     # ---- depth 2: if containing a compound
     for c in conds[:4 if thorough else 1]:
